@@ -337,7 +337,7 @@ impl Harness for C14 {
                 "entry_paths": mc_sc::entry::BOUNDS,
                 "lattices": format!("every n x p matrix over the alphabet, for: {}; x {{PCA covariance, PCA correlation: every k in 1..=p; truncated SVD: every k in 1..p and k = p (must be Err)}}; constant columns are outside the statement in correlation mode (skipped, counted)", lattice_desc.join("; ")),
                 "rescaled_lattices": format!("power-of-two rescaling: every matrix of the following lattices with every entry multiplied by 2^e (exact), for every e in {:?}: {}; x the same 3 estimators x every k; same oracle, every tolerance relative to the (scaled) trace; site keys of these inputs end in :tiny-magnitude (0 < max|x| < 2^-20) / :huge-magnitude (max|x| > 2^20)", scaled_exps(t), scaled_desc.join("; ")),
-                "structured": format!("n in {}, p in 1..=8: every (rank structure in {{1,2,p-1,p latent integer factors, exact duplicate column, constant column}}) x (4 column-scale profiles: unit, 2^-7..2^10, 1e-2..1e3, alternating 1e3/1e-2) x (3 mean profiles: 0, +1e4, mixed up to 1e4) x {} generator rotation(s) x 3 estimators x every k", if t { "2..=80 (every n)" } else { "{2,3,5,8,9,17,40,80}" }, if t { 4 } else { 1 }),
+                "structured": format!("n in {}, p in 1..=8: every (rank structure in {{1,2,p-1,p latent integer factors, exact duplicate column, constant column}}) x (4 column-scale profiles: unit, 2^-7..2^10, 1e-2..1e3, alternating 1e3/1e-2; for the correlation option with zero means also alternating 2^37/2^-20, standard deviations further apart than 1/eps) x (3 mean profiles: 0, +1e4, mixed up to 1e4) x {} generator rotation(s) x 3 estimators x every k", if t { "2..=80 (every n)" } else { "{2,3,5,8,9,17,40,80}" }, if t { 4 } else { 1 }),
                 "seed": format!("VERIF_SEED mod 8 selects the affine perturbation a*v+b of the lattice alphabets (here a={}, b={}) and rotates the structured generator's weights", PERTURB[(seed % 8) as usize].0, PERTURB[(seed % 8) as usize].1),
                 "element_type": "f64, DenseMatrix",
             }),
@@ -419,6 +419,11 @@ impl Harness for C14 {
                 let mv = mc::choose(gen::N_MEANS);
                 let est = mc::pick(&ESTS);
                 let k = 1 + mc::choose(p);
+                // profile 4 (scales 2^57 apart) is meaningful for the correlation option only, and
+                // with means that do not swamp the small columns
+                if sv == 4 && (est != "corr" || mv != 0) {
+                    return;
+                }
                 let x = gen::structured(n, p, st, sv, mv, rot);
                 mc::count("structured_cases");
                 let fam = format!("structured {:?}, scales {}, means {}, rot {}", st, gen::scale_name(sv), gen::mean_name(mv), rot);
